@@ -912,7 +912,7 @@ func init() {
 	core.Register(&core.Check{
 		Spec: core.Spec{
 			Prop:        "C04",
-			Rule:        "Mutation engine over valid base vertices (spice, contract, countersigned, boundary amount, data+spice, self transfer; re-created on a growing history). Mutations: 1/2/k bit flips, byte replacement, zeroing, truncation/extension/emptying of every byte-valued field; +-1..2^63 and bit flips on weight, both timestamps and both amount parts; bytes moved across subject|data, data|issuer, issuer|receiver boundaries; every field swapped with another valid vertex; signatures/addresses of a foreign wallet (wrong key over the right message, right key over another message); receiver signature stripped, replaced, forged, added. Identity mutations are discarded. Every mutant is offered through AddLeaf to three nodes: one that knows the parents but never saw the original, one that holds the original, one that has the original parked behind its parent: it must be refused, leave the ledger digest unchanged and not be parked. Addresses: every base58 substitution, transposition, case change, deletion, insertion at sampled positions, leading-1 insertion/removal, and every bit flip / replacement of the decoded version, key and checksum bytes re-encoded, must fail to resolve (a corrupted address is rejected, not taken for the original); vertices carrying such an alias as sealer, issuer or receiver are mutants like any other. Non-trivial = every mutant; distinct by (field, mutation kind, node state). Sync path: the holder's own DAG stream with one vertex altered by the same engine (last, last but one, middle, PRNG position) is loaded in to fresh nodes; whatever the loader reports, the altered vertex must not be in the ledger. Service level: the engine's transaction mutants through gossip.GossipTrx and notary.Propose of a whole node (each mutant on a base transaction of its own, because repeated hashes are answered by the duplicate suppression): ledger and awaiting lists must not change; fixed cases: a transfer and an awaiting contract with a junk receiver signature (through Propose, GossipTrx, Reject) - every vertex the node seals itself must pass its own vertex verification. Wire level: the engine's mutants and rewrites that exist only on the wire (the two amount fields shifted against each other by k whole units, with wrap-around) arrive as messages at the gossip service of a whole node; the ledger must not change and nothing altered may be parked. Confirm of an awaiting contract with the receiver's signature stripped (absent, empty, one zero byte) must be refused. A fourth state of knowledge: the node verified the original, admitted it as a tentative tip and dropped it; altered copies under the genuine hash and signatures must be refused all the same. Harness clock aligned to microseconds so that sub-microsecond moves of the transaction time stay judged.",
+			Rule:        "Mutation engine over valid base vertices (spice, contract, countersigned, boundary amount, data+spice, self transfer; re-created on a growing history). Mutations: 1/2/k bit flips, byte replacement, zeroing, truncation/extension/emptying of every byte-valued field; +-1..2^63 and bit flips on weight, both timestamps and both amount parts; bytes moved across subject|data, data|issuer, issuer|receiver boundaries; every field swapped with another valid vertex; signatures/addresses of a foreign wallet (wrong key over the right message, right key over another message); receiver signature stripped, replaced, forged, added. Identity mutations are discarded. Every mutant is offered through AddLeaf to three nodes: one that knows the parents but never saw the original, one that holds the original, one that has the original parked behind its parent: it must be refused, leave the ledger digest unchanged and not be parked. Addresses: every base58 substitution, transposition, case change, deletion, insertion at sampled positions, leading-1 insertion/removal, and every bit flip / replacement of the decoded version, key and checksum bytes re-encoded, must fail to resolve (a corrupted address is rejected, not taken for the original); vertices carrying such an alias as sealer, issuer or receiver are mutants like any other. Non-trivial = every mutant; distinct by (field, mutation kind, node state). Sync path: the holder's own DAG stream with one vertex altered by the same engine (last, last but one, middle, PRNG position) is loaded in to fresh nodes; whatever the loader reports, the altered vertex must not be in the ledger. Service level: the engine's transaction mutants through gossip.GossipTrx and notary.Propose of a whole node (each mutant on a base transaction of its own, because repeated hashes are answered by the duplicate suppression): ledger and awaiting lists must not change; fixed cases: a transfer and an awaiting contract with a junk receiver signature (through Propose, GossipTrx, Reject) - every vertex the node seals itself must pass its own vertex verification. Wire level: the engine's mutants and rewrites that exist only on the wire (the two amount fields shifted against each other by k whole units, with wrap-around) arrive as messages at the gossip service of a whole node; the ledger must not change and nothing altered may be parked. Confirm of an awaiting contract with the receiver's signature stripped (absent, empty, one zero byte) must be refused. A fourth state of knowledge: the node verified the original, admitted it as a tentative tip and dropped it; altered copies under the genuine hash and signatures must be refused all the same. Harness clock aligned to microseconds so that sub-microsecond moves of the transaction time stay judged. The transaction of every mutant with an altered transaction is also handed to the ledger's own sealing entry (CreateLeaf).",
 			Assumptions: []string{"ed25519 and sha256 are not broken; a vertex completely re-sealed by another node is a new vertex, not a mutation", ledgerAssume},
 			MinEvals:    3000, MinNontriv: 100,
 		},
